@@ -495,7 +495,11 @@ impl<T: Transport, E: UtpEnvironment> Dispatcher<T, E> {
             }
             ControlRequest::Shutdown(key) => {
                 trace!(?key, "removing stream");
-                self.streams.remove(&key);
+                // The key may have been re-used by a new connection since this request was
+                // enqueued: only remove an entry whose connection is gone.
+                if self.streams.get(&key).is_some_and(|tx| tx.is_closed()) {
+                    self.streams.remove(&key);
+                }
             }
         }
     }
